@@ -33,6 +33,8 @@ static RING_HEAD: AtomicUsize = AtomicUsize::new(0);
 static RING_TAIL: AtomicUsize = AtomicUsize::new(0);
 pub static RING_OVERFLOW: AtomicBool = AtomicBool::new(false);
 pub static FREES: AtomicUsize = AtomicUsize::new(0);
+/// address of the first block freed twice during the run (0 = none)
+pub static DOUBLE_FREE: AtomicUsize = AtomicUsize::new(0);
 pub static ALLOCS: AtomicUsize = AtomicUsize::new(0);
 
 /// Reserve the arena (call once in the long-lived parent, before forking runs).
@@ -276,6 +278,9 @@ unsafe impl GlobalAlloc for Quarantine {
             return System.dealloc(ptr, layout);
         }
         FREES.fetch_add(1, Relaxed);
+        if is_freed(addr) && DOUBLE_FREE.load(Relaxed) == 0 {
+            DOUBLE_FREE.store(addr, Relaxed);
+        }
         let size = (layout.size().max(1) + (1 << GRANULE_SHIFT) - 1) & !((1 << GRANULE_SHIFT) - 1);
         if POISON.load(Relaxed) {
             std::ptr::write_bytes(ptr, 0xDD, size);
